@@ -51,6 +51,28 @@ Never use `git stash` (it is shared between all worktrees of /repo and other age
 between changed and unchanged state with `git diff > SEED/patch.diff; git checkout -- .; ...; git apply SEED/patch.diff`.
 When you wait for a build, run ninja synchronously; do NOT write wait loops with pgrep (they match other agents' shells).
 """,
+ 6: """## This is the SIXTH seeding round: aim for what the earlier rounds did not try
+
+Earlier rounds already used these mechanisms for this property -- do not repeat them (pick a different function / code path):
+%(used)s
+This time the change must belong to one of these classes (say which one in the README):
+ (m) TEXT I/O DETAILS: number formatting on output (precision, width, scientific notation, a value that needs more
+     digits/columns than the field has, -0, very small/large magnitudes) or tokenising on input (tabs, several blanks,
+     CRLF, comment or blank lines in unusual places, missing final newline, upper/lower case of keywords, a locale with a
+     decimal comma) -- so that something written is not read back as written, or a legal file is misread;
+ (n) DEFAULTS AND ABSENT PARTS: wrong only when an optional part is ABSENT (an omitted option takes a changed default, an
+     optional column/section/attribute is missing, an empty selection, zero frames/rows/beads/jobs, one element only);
+ (o) PROCESS-WIDE STATE: a static/global/singleton (factory registries, element/unit tables, random generators, lazily
+     built caches, library-wide settings of Eigen/HDF5/expat/OpenMP, the working directory, environment variables) that
+     is set by one call and changes what a later, unrelated call in the same process does;
+ (p) COPY / MOVE / ASSIGN / CLONE / SWAP of an object that takes part in the property: the copy shares or loses part of
+     the state (pointer members, cached quantities, flags), visible only when the copy (or the original afterwards) is used;
+ (q) ACCUMULATION OVER MANY STEPS: counters, running sums/averages, offsets or indices that are right for the first few
+     steps and drift or overflow later (second block, frame 2+, after a restart/resume, after N > typical items).
+Never use `git stash` (it is shared between all worktrees of /repo and other agents are working concurrently); switch
+between changed and unchanged state with `git diff > SEED/patch.diff; git checkout -- .; ...; git apply SEED/patch.diff`.
+When you wait for a build, run ninja synchronously; do NOT write wait loops with pgrep (they match other agents' shells).
+""",
 }
 
 
